@@ -11,6 +11,7 @@
 //     prog: main=<ops> ; a=<ops> ; b=<ops>      (main creates + starts the transport and spawns the others; every thread
 //                                                holds its own shared_ptr, so "destroy" = the last owner letting go)
 //       listen            addListener("127.0.0.1", 0)                 connect      async connect to the first listener
+//       connectto:<ip>    async connect to <ip>:9 (e.g. 224.0.0.1, 255.255.255.255: refused inside connect())
 //       send:<nth>:<n>    send n bytes on the nth announced session   close:<nth>  close it     (nth = 0: the session this
 //                                                                                   thread's last connect returned)
 //       peer:<k>          raw loopback socket k connects (TCP) / sends one datagram (UDP) to the first listener
@@ -20,6 +21,7 @@
 //       waitn:<n>         spin (schedule points) until n sessions have been announced
 //       waitflag:<f> setflag:<f>
 //       stop   start   (repeated cycles)   drop (release this thread's shared_ptr)
+//       cbstop            arm: the next close callback calls stop() on the I/O thread (do not combine with cbdrop)
 //       cbdrop            arm: the next callback on the I/O thread releases main's shared_ptr (sole owner inside a callback;
 //                         use only when no other thread holds one)
 //   End of main's ops: join the other threads, stop (if running), drop.
@@ -91,6 +93,8 @@ struct World
   std::map<int, int> peers;
   std::atomic<bool> stopReturned{false};
   std::atomic<bool> cbDropArmed{false};
+  std::atomic<bool> cbStopArmed{false};
+  Transport *rawForCb = nullptr; // valid while some owner exists (cbstop programs keep main's reference until the end)
   std::atomic<int> port{0};
   std::atomic<bool> running{false};
   void lock()
@@ -181,6 +185,14 @@ static void installCallbacks(World *w, Transport *t)
     {
       bool as = w->stopReturned.load(std::memory_order_acquire);
       w->tr.add(vf::Ev("Close").i("s", (long long)s).b("as", as));
+      bool e = true;
+      if (w->cbStopArmed.compare_exchange_strong(e, false) && w->rawForCb)
+      {
+        // stop() from inside one of the transport's own callbacks (possibly while another thread's stop() is joining us)
+        w->tr.add(vf::Ev("LifeCall").str("t", "io").str("op", "stop_in_cb"));
+        w->rawForCb->stop();
+        w->tr.add(vf::Ev("LifeRet").str("t", "io").str("op", "stop_in_cb").b("ok", true));
+      }
       maybeDrop();
     });
 }
@@ -261,6 +273,11 @@ static void appOps(World *w, const ThreadProg &tp)
       w->cbDropArmed.store(true);
       continue;
     }
+    if (op == "cbstop")
+    {
+      w->cbStopArmed.store(true);
+      continue;
+    }
     if (op == "drop")
     {
       vf::point("call");
@@ -294,10 +311,11 @@ static void appOps(World *w, const ThreadProg &tp)
       }
       w->tr.add(vf::Ev("ListenRet").str("t", tp.name).b("ok", r.isOk()).b("af", af));
     }
-    else if (op == "connect")
+    else if (op == "connect" || op == "connectto")
     {
+      // connectto:<ip>: an address the kernel refuses inside the connect() call itself (multicast, broadcast, no route)
       w->tr.add(vf::Ev("ConnCall").str("t", tp.name));
-      auto r = t->connect("127.0.0.1", (uint16_t)w->port.load(), TlsMode::None);
+      auto r = op == "connect" ? t->connect("127.0.0.1", (uint16_t)w->port.load(), TlsMode::None) : t->connect(o.f[1], 9, TlsMode::None);
       if (r.isOk()) mine = r.value();
       w->tr.add(vf::Ev("ConnRet").str("t", tp.name).b("ok", r.isOk()).i("s", r.isOk() ? (long long)r.value() : 0).b("af", af));
     }
@@ -393,6 +411,7 @@ static std::string runOne(const std::string &proto, const std::vector<ThreadProg
               for (auto &tp : w->prog) w->owner[tp.name] = t;
               if (!w->owner.count("main")) w->owner["main"] = t;
               Transport *raw = t.get();
+              w->rawForCb = raw;
               t.reset();
               vf::nameNextChild("io");
               bool ok = raw->start().isOk();
